@@ -819,7 +819,7 @@ impl<'a, 'b, 'ast> Visit<'ast> for Collector<'a, 'b> {
                 let sp = e.span().byte_range();
                 self.edits.push((sp.start, sp.end, format!("{}neg_({x})", rw.fam(&[&u.expr]))));
             }
-            Expr::MethodCall(c) if c.method == "collect" && c.args.is_empty() && !(rw.for_iter && matches!(&*c.receiver, Expr::MethodCall(m) if m.method == "filter_map")) => {
+            Expr::MethodCall(c) if c.method == "collect" && c.args.is_empty() && !(rw.for_iter && matches!(&*c.receiver, Expr::MethodCall(m) if m.method == "filter_map" || (m.method == "filter" && matches!(&*m.receiver, Expr::MethodCall(mm) if mm.method == "into_iter")))) => {
                 // R8: (a..b).collect()
                 let mut inner = &*c.receiver;
                 while let Expr::Paren(p) = inner {
@@ -1018,6 +1018,34 @@ impl<'a, 'b, 'ast> Visit<'ast> for Collector<'a, 'b> {
                         self.edits.push((sp.start, sp.end, text));
                     }
                 } } }
+            }
+            Expr::MethodCall(c) if rw.for_iter && c.method == "collect" && c.args.is_empty() && matches!(&*c.receiver, Expr::MethodCall(f) if f.method == "filter" && f.args.len() == 1 && matches!(&f.args[0], Expr::Closure(cl) if cl.inputs.len() == 1) && matches!(&*f.receiver, Expr::MethodCall(m) if m.method == "into_iter" && m.args.is_empty() && matches!(&*m.receiver, Expr::Path(_)))) => {
+                // R34 (option for_iter=1): `V.into_iter().filter(|P| B).collect()` on a Vec held in a variable -> the loop these adaptors perform
+                //   (items in order, each tested through a reference, the kept ones moved to the output):
+                //   `{ let mut src = V; let mut out = Vec::new(); loop { match vec_take_first_(&mut src) { Some(item) => { let keep = { let P = &item; B };
+                //       if keep { out.push(item); } } None => break } } out }`   (a tuple pattern binds references to the item's fields)
+                if let Expr::MethodCall(f) = &*c.receiver { if let (Expr::Closure(cl), Expr::MethodCall(m)) = (&f.args[0], &*f.receiver) {
+                    let idx = rw.loop_idx.get();
+                    rw.loop_idx.set(idx + 1);
+                    let a = e.span().byte_range().start;
+                    let b = cl.body.span().byte_range().start;
+                    rw.loop_headers.borrow_mut().push(rw.src[a..b].split_whitespace().collect::<Vec<_>>().join(" "));
+                    let v = rw.render_expr(&m.receiver);
+                    let body = rw.render_expr(&cl.body);
+                    let binds = match &cl.inputs[0] {
+                        syn::Pat::Tuple(t) => t.elems.iter().enumerate().filter_map(|(k, p)| match p { syn::Pat::Ident(pi) => Some(format!("let {} = &__item{idx}.{k};", pi.ident)), _ => None }).collect::<Vec<_>>().join(" "),
+                        other => format!("let {} = &__item{idx};", rw.src[other.span().byte_range()].trim()),
+                    };
+                    let inv = rw.section(&format!("loop {idx}")).map(|t| mark(t)).unwrap_or_default();
+                    let end = rw.section(&format!("loop {idx} end")).map(|t| format!("proof {{ //@p\n{}\n}} //@p\n", mark(t))).unwrap_or_default();
+                    let newv = match &rw.vec_elem { Some(t) => format!("Vec::<{t}>::new()"), None => "Vec::new()".to_string() };
+                    let top = rw.section(&format!("loop {idx} top-raw")).map(|t| format!("{}\n", mark(t))).unwrap_or_default();
+                    let after = rw.section(&format!("loop {idx} after")).map(|t| format!("proof {{ //@p\n{}\n}} //@p\n", mark(t))).unwrap_or_default();
+                    let text = format!("({{ let mut __src{idx} = {v}; let mut __out{idx} = {newv};\nloop\n{inv}\n{{ {top}match vec_take_first_(&mut __src{idx}) {{ Some(__item{idx}) => {{ let __keep{idx} = {{ {binds} {body} }}; if __keep{idx} {{ __out{idx}.push(__item{idx}); }}\n{end} }} None => {{ break; }} }} }}\n{after} __out{idx} }})");
+                    rw.count("R34");
+                    let sp = e.span().byte_range();
+                    self.edits.push((sp.start, sp.end, text));
+                } }
             }
             Expr::MethodCall(c) if rw.for_iter && c.method == "then" && c.args.len() == 1 && matches!(&c.args[0], Expr::Closure(cl) if cl.inputs.is_empty()) => {
                 // R26 (option for_iter=1): `b.then(|| E)` -> `if b { Some(E) } else { None }`  (bool::then, by definition)
